@@ -1047,82 +1047,108 @@ func checkMsgListsExhausted(P *core.Program, R *core.Report) {
 		if !strings.HasPrefix(r.Key, "x/oracle/keeper.") || r.Fn == nil || r.Msg == nil {
 			continue
 		}
-		fn := r.Fn
-		ff := P.Facts(fn)
-		for _, h := range fn.Blocks {
-			// a range loop header: it holds the index φ and its condition is index < len(x)
-			if len(h.Instrs) == 0 || len(h.Succs) != 2 {
-				continue
-			}
-			iff, ok := h.Instrs[len(h.Instrs)-1].(*ssa.If)
-			if !ok {
-				continue
-			}
-			bo, ok := iff.Cond.(*ssa.BinOp)
-			if !ok || bo.Op != token.LSS {
-				continue
-			}
-			lx, isLen := lenOf(ff, bo.Y)
-			if !isLen {
-				continue
-			}
-			overMsg := false
+		ff := P.Facts(r.Fn)
+		msgName := r.Msg.Name()
+		n += checkLoopsExhausted(P, R, rule, r.Key, r.Fn, "loop over a list of the message", "every element is applied or the message fails. ", func(lx ssa.Value) bool {
 			for _, o := range ff.Origins(lx) {
-				if o.Kind == "param" && o.Name == r.Msg.Name() && o.Path != "" {
-					overMsg = true
+				if o.Kind == "param" && o.Name == msgName && o.Path != "" {
+					return true
 				}
 			}
-			if !overMsg {
-				continue
-			}
-			// the loop: blocks dominated by h from which h is reachable
-			inLoop := map[*ssa.BasicBlock]bool{h: true}
-			for _, b := range fn.Blocks {
-				if b != h && h.Dominates(b) && blockReaches(b, h) {
-					inLoop[b] = true
-				}
-			}
-			n++
-			bad := ""
-			for b := range inLoop {
-				if b == h {
-					continue
-				}
-				if len(b.Succs) == 0 {
-					// a return inside the body
-					if ret, ok := b.Instrs[len(b.Instrs)-1].(*ssa.Return); ok {
-						for _, ex := range ff.Exits() {
-							if ex.Instr == ssa.Instruction(ret) && ex.Kind != core.ExitError {
-								bad = "a success return inside the loop body at " + P.Pos(P.InstrPos(ret))
-							}
-						}
-					}
-				}
-				for _, s := range b.Succs {
-					if inLoop[s] {
-						continue
-					}
-					// left the loop from the body: may a success exit follow?
-					if len(s.Instrs) == 0 {
-						continue
-					}
-					if _, reach := ff.SuccessExitReachableWithout(s.Instrs[0], func(in ssa.Instruction) bool { return in.Block() == h }); reach {
-						bad = "the loop is left from its body (break) at " + P.Pos(P.InstrPos(b.Instrs[len(b.Instrs)-1])) + " and the message still succeeds"
-					} else if ret, ok := s.Instrs[len(s.Instrs)-1].(*ssa.Return); ok && len(s.Instrs) == 1 {
-						for _, ex := range ff.Exits() {
-							if ex.Instr == ssa.Instruction(ret) && ex.Kind != core.ExitError {
-								bad = "the loop is left from its body to a success return at " + P.Pos(P.InstrPos(ret))
-							}
-						}
-					}
-				}
-			}
-			R.Add(rule, r.Key, "loop over a list of the message", P.Pos(P.InstrPos(iff)), bad == "", "every element is applied or the message fails. "+bad)
-		}
+			return false
+		})
 	}
 	if n < 3 {
 		R.Add(rule, "-", "message list loops", "-", false, fmt.Sprintf("only %d loops over message lists found in the oracle handlers (anchor changed)", n))
 	}
+	// the end-of-block sweep visits EVERY stored price: the store is ordered by asset and source
+	// first, so leaving the loop at the first live entry keeps the dead prices of every later
+	// asset (a feed that stopped is served for ever)
+	const sweep = "x/oracle/keeper.Keeper.EndBlock"
+	if fn := P.Fn(sweep); fn != nil {
+		ff := P.Facts(fn)
+		m := checkLoopsExhausted(P, R, "C16-expiry", sweep, fn, "sweep visits every stored price", "the expiry sweep is left only when the price list is exhausted. ", func(lx ssa.Value) bool {
+			for _, o := range ff.Origins(lx) {
+				if o.Kind == "call" && strings.HasSuffix(o.Name, "Keeper.GetAllPrice") {
+					return true
+				}
+			}
+			return false
+		})
+		if m == 0 {
+			R.Add("C16-expiry", sweep, "sweep visits every stored price", P.Pos(fn.Pos()), false, "no loop over GetAllPrice found (anchor changed)")
+		}
+	}
+}
+
+// checkLoopsExhausted: for every range loop of fn whose ranged-over value satisfies over, no
+// success exit is reachable from inside the loop body other than through the loop header.
+// Returns the number of such loops.
+func checkLoopsExhausted(P *core.Program, R *core.Report, rule, key string, fn *ssa.Function, construct, detail string, over func(lx ssa.Value) bool) int {
+	ff := P.Facts(fn)
+	n := 0
+	for _, h := range fn.Blocks {
+		// a range loop header: it holds the index φ and its condition is index < len(x)
+		if len(h.Instrs) == 0 || len(h.Succs) != 2 {
+			continue
+		}
+		iff, ok := h.Instrs[len(h.Instrs)-1].(*ssa.If)
+		if !ok {
+			continue
+		}
+		bo, ok := iff.Cond.(*ssa.BinOp)
+		if !ok || bo.Op != token.LSS {
+			continue
+		}
+		lx, isLen := lenOf(ff, bo.Y)
+		if !isLen || !over(lx) {
+			continue
+		}
+		// the loop: blocks dominated by h from which h is reachable
+		inLoop := map[*ssa.BasicBlock]bool{h: true}
+		for _, b := range fn.Blocks {
+			if b != h && h.Dominates(b) && blockReaches(b, h) {
+				inLoop[b] = true
+			}
+		}
+		n++
+		bad := ""
+		for _, b := range fn.Blocks {
+			if !inLoop[b] || b == h {
+				continue
+			}
+			if len(b.Succs) == 0 {
+				// a return inside the body
+				if ret, ok := b.Instrs[len(b.Instrs)-1].(*ssa.Return); ok {
+					for _, ex := range ff.Exits() {
+						if ex.Instr == ssa.Instruction(ret) && ex.Kind != core.ExitError {
+							bad = "a success return inside the loop body at " + P.Pos(P.InstrPos(ret))
+						}
+					}
+				}
+			}
+			for _, s := range b.Succs {
+				if inLoop[s] {
+					continue
+				}
+				// left the loop from the body: may a success exit follow?
+				if len(s.Instrs) == 0 {
+					continue
+				}
+				if _, reach := ff.SuccessExitReachableWithout(s.Instrs[0], func(in ssa.Instruction) bool { return in.Block() == h }); reach {
+					bad = "the loop is left from its body (break) at " + P.Pos(P.InstrPos(b.Instrs[len(b.Instrs)-1])) + " and the function still succeeds"
+				} else if ret, ok := s.Instrs[len(s.Instrs)-1].(*ssa.Return); ok && len(s.Instrs) == 1 {
+					for _, ex := range ff.Exits() {
+						if ex.Instr == ssa.Instruction(ret) && ex.Kind != core.ExitError {
+							bad = "the loop is left from its body to a success return at " + P.Pos(P.InstrPos(ret))
+						}
+					}
+				}
+			}
+		}
+		R.Add(rule, key, construct, P.Pos(P.InstrPos(iff)), bad == "", detail+bad)
+	}
+	return n
 }
 
 func blockReaches(from, to *ssa.BasicBlock) bool {
